@@ -93,3 +93,41 @@ pub fn mulratio(a: &str, n: &str, d: &str) -> T {
 pub const E18: &str = "1000000000000000000";
 pub const E27: &str = "1000000000000000000000000000";
 pub const E30: &str = "1000000000000000000000000000000";
+
+/// Value of a ground term built from numerals with + and - (bank balances in concrete replays).
+pub fn eval_ground(t: &str) -> Option<u128> {
+    fn go(toks: &[String], i: &mut usize) -> Option<i128> {
+        let tk = toks.get(*i)?.clone();
+        *i += 1;
+        if tk == "(" {
+            let op = toks.get(*i)?.clone();
+            *i += 1;
+            let mut args = vec![];
+            while toks.get(*i)? != ")" {
+                args.push(go(toks, i)?);
+            }
+            *i += 1;
+            match op.as_str() {
+                "+" => Some(args.iter().sum()),
+                "-" => {
+                    if args.len() == 1 {
+                        Some(-args[0])
+                    } else {
+                        Some(args[0] - args[1..].iter().sum::<i128>())
+                    }
+                }
+                _ => None,
+            }
+        } else {
+            tk.parse::<i128>().ok()
+        }
+    }
+    let toks: Vec<String> = t.replace('(', " ( ").replace(')', " ) ").split_whitespace().map(|x| x.to_string()).collect();
+    let mut i = 0;
+    let v = go(&toks, &mut i)?;
+    if i == toks.len() && v >= 0 {
+        Some(v as u128)
+    } else {
+        None
+    }
+}
